@@ -167,6 +167,7 @@ def run(ctx):
     ctx.ob("C22.R4", W + ":WasmToIrCompiler.gen_binop", "operands are popped right operand first (b, then a)", [norm(n.targets[0]) for n in order] == ["b", "a"], construct="pop-order")
     _conditions(ctx)
     _br_table(ctx)
+    _sign_wrap(ctx)
 
 
 def _conditions(ctx):
@@ -332,3 +333,45 @@ def _br_table(ctx):
     ctx.need(n_methods >= 40, "WasmToIrCompiler: only %d methods scanned" % n_methods)
     ctx.ob("C22.R7", W + ":WasmToIrCompiler", "no method modifies, in place, data reached from its parameters (instructions, their argument lists, components of the module): the same Module object is translated again for the other target and written out again",
            not bad, construct="module-not-mutated", node=bad[0][1] if bad else None, detail="; ".join("%s line %d: %s" % (a, b.lineno, c) for a, b, c in bad[:4]))
+
+
+def _sign_wrap(ctx):
+    """R8: wasm integers are kept as SIGNED Python ints.  make_int(v, bits) is what turns the unsigned result of
+    *.trunc_*_u (and an unsigned literal of the text format) into that representation."""
+    from .. import sym
+    U = "ppci/wasm/util.py"
+    ctx.rule("C22.R8", "make_int(v, bits) maps an unsigned value to the signed representation: exactly the values >= 2^(bits-1) have 2^bits subtracted (2^(bits-1) itself becomes the most negative number)", floor=3)
+    fn = ctx.fn(U, "make_int")
+    site = U + ":make_int"
+    env = sym.single_assign_env(fn)
+    subs = [n for n in ast.walk(fn) if isinstance(n, ast.AugAssign) and isinstance(n.op, ast.Sub) and norm(n.target) == "v"]
+    ctx.need(len(subs) == 1, "make_int: the wrap `v -= ...` was not found")
+    amount = sym.pow2_exp(subs[0].value, env)
+    ctx.ob("C22.R8", site, "the amount subtracted is 2^bits", amount is not None and amount == sym.atom("bits"), construct="wrap-amount", detail=norm(subs[0]))
+    conds = [(c, pol) for c, pol in sym.conjuncts(subs[0], fn, env) if "v" in {x.id for x in ast.walk(c) if isinstance(x, ast.Name)}]
+    ok = False
+    det = "; ".join("%s%s" % ("" if pol else "not ", " ".join(norm(c).split())) for c, pol in conds)
+    if len(conds) == 1 and isinstance(conds[0][0], ast.Compare) and len(conds[0][0].ops) == 1:
+        c, pol = conds[0]
+        op = type(c.ops[0])
+        if not pol:
+            op = {ast.Lt: ast.GtE, ast.LtE: ast.Gt, ast.Gt: ast.LtE, ast.GtE: ast.Lt}.get(op, op)
+        left, right = c.left, c.comparators[0]
+        if norm(right) == "v":      # T <= v  ->  v >= T
+            left, right = right, left
+            op = {ast.Lt: ast.Gt, ast.LtE: ast.GtE, ast.Gt: ast.Lt, ast.GtE: ast.LtE}.get(op, op)
+        if norm(left) == "v":
+            half = sym.atom("bits") - sym.const(1)
+            if op is ast.GtE:
+                e = sym.pow2_exp(right, env)
+                ok = e is not None and e == half
+            elif op is ast.Gt and isinstance(right, ast.BinOp) and isinstance(right.op, ast.Sub) and norm(right.right) == "1":
+                e = sym.pow2_exp(right.left, env)
+                ok = e is not None and e == half
+    ctx.ob("C22.R8", site, "it is subtracted exactly when v >= 2^(bits-1) (the bound is inclusive: 0x80000000 is INT_MIN)", ok, construct="wrap-threshold", detail=det)
+    guard = any(pol is True and " ".join(norm(c).split()) == "bits is not None" for c, pol in sym.conjuncts(subs[0], fn, {}))
+    ctx.ob("C22.R8", site, "the wrap is applied whenever a width is given", guard, construct="wrap-when-bits")
+    rt = ctx.project.module("ppci/wasm/execution/runtime.py")
+    uses = [c for c in ast.walk(rt.tree) if isinstance(c, ast.Call) and norm(c.func) == "make_int"]
+    widths = sorted({norm(c.args[1]) for c in uses if len(c.args) == 2})
+    ctx.ob("C22.R8", "ppci/wasm/execution/runtime.py", "the unsigned truncations hand their result to make_int with the width of the result type (%d uses)" % len(uses), len(uses) >= 8 and widths == ["32", "64"], construct="runtime-uses", detail=str(widths))
